@@ -82,6 +82,10 @@ func c08Gradient2(p *Prog, l *Ledger) {
 		}
 		key := p.Key(af.Fn)
 		if af.RTT == nil {
+			// a method that stores the estimate but is not on the sample path (a reset, a setter) takes no RTT: nothing to decide
+			if on := p.Method(af.A.T, "OnSample"); on != nil && af.Fn != on && !p.Reachable(on)[af.Fn] {
+				continue
+			}
 			l.Unknown("O8", key, p.FuncPos(af.Fn), "cannot map OnSample's rtt parameter onto this function")
 			continue
 		}
